@@ -70,6 +70,39 @@ def template(kind='vars', extra='', lit=None):
     return t
 
 
+class IntLike:
+    """an integer that is not an int (a database driver's or numpy's integer type): usable as an index and in arithmetic, its
+    results are of its own kind"""
+
+    def __init__(self, v):
+        self.v = int(v)
+
+    def __index__(self):
+        return self.v
+    __int__ = __index__
+
+    def _w(self, r):
+        return IntLike(r)
+
+    def __add__(self, o): return self._w(self.v + int(o))
+    __radd__ = __add__
+    def __sub__(self, o): return self._w(self.v - int(o))
+    def __rsub__(self, o): return self._w(int(o) - self.v)
+    def __mul__(self, o): return self._w(self.v * int(o))
+    __rmul__ = __mul__
+    def __neg__(self): return self._w(-self.v)
+    def __lt__(self, o): return self.v < int(o)
+    def __le__(self, o): return self.v <= int(o)
+    def __gt__(self, o): return self.v > int(o)
+    def __ge__(self, o): return self.v >= int(o)
+    def __eq__(self, o): return isinstance(o, (int, IntLike)) and self.v == int(o)
+    def __ne__(self, o): return not self.__eq__(o)
+    def __hash__(self): return hash(self.v)
+    def __bool__(self): return self.v != 0
+    def __repr__(self): return str(self.v)
+    __str__ = __repr__
+
+
 class Counter:
     """an iterator over 1..L (L=-1: unbounded) that counts how far it has been pulled"""
 
@@ -115,6 +148,7 @@ class LazySeq:
             # producing everything (so asking for a slice of an unfinished sequence is as expensive as len())
             start, stop, step = i.indices(len(self))
             return [self[j] for j in range(start, stop, step)]
+        i = i.__index__()
         if i < 0:
             i += self.L
         if not 0 <= i < self.L:
@@ -202,7 +236,7 @@ def observe(par, kind='vars', seqkind='list', as_str=False, extra=''):
         pulls = lambda: c.hi  # noqa
     else:
         raise ValueError(seqkind)
-    conv = str if as_str else int
+    conv = IntLike if as_str == 'obj' else str if as_str else int
     if kind == 'lit':
         t = template('lit', extra, (start, end, size, orphan, overlap))
         kw = {}
